@@ -27,7 +27,7 @@ func C18(c *core.Ctx) {
 
 	ru := c.Fn("R18.1", "dv/dv", "Router", "ribUpdate")
 	if ru != nil {
-		sets := core.FindCalls(ru, core.CalleeID{Pkg: "dv/table", Recv: "Rib", Name: "Set"})
+		sets := core.FindCallsDeep(ru, core.CalleeID{Pkg: "dv/table", Recv: "Rib", Name: "Set"})
 		c.Floor("R18.1", "Rib.Set calls in ribUpdate", len(sets), 1)
 		ns := ssa.Value(ru.Params[1])
 		for _, ci := range sets {
@@ -74,7 +74,13 @@ func C18(c *core.Ctx) {
 			}}
 			var edges []string
 			okCost := true
-			phi, isPhi := cost.(*ssa.Phi)
+			// the cost may be computed by a private helper of ribUpdate: follow it there
+			costV := core.Resolve(cost)
+			cf := ru
+			if in, ok := costV.(ssa.Instruction); ok && in.Parent() != nil {
+				cf = in.Parent()
+			}
+			phi, isPhi := costV.(*ssa.Phi)
 			check := func(v ssa.Value, pred, join *ssa.BasicBlock) {
 				v = core.Strip(v)
 				if isInf(v) {
@@ -87,7 +93,7 @@ func C18(c *core.Ctx) {
 					edges = append(edges, "?")
 					return
 				}
-				k, isC := core.ConstInt(b.Y)
+				k, isC := core.ConstInt(core.Resolve(b.Y))
 				fld := ""
 				if _, okF := core.FieldOf(b.X, "Cost"); okF {
 					fld = "Cost"
@@ -104,8 +110,8 @@ func C18(c *core.Ctx) {
 				if fld == "Cost" && pred != nil && join != nil {
 					// poison reverse: the advertised cost is never used on a path asserting
 					// that the advertised next hop is this router
-					cut, per := core.CutEdges(ru, neg(isSelf))
-					if per[0] > 0 && !cut[core.Edge{From: pred, To: join}] && core.ReachAvoiding(ru, ru.Blocks[0], map[*ssa.BasicBlock]bool{pred: true}, cut) != nil {
+					cut, per := core.CutEdges(cf, neg(isSelf))
+					if per[0] > 0 && !cut[core.Edge{From: pred, To: join}] && core.ReachAvoiding(cf, cf.Blocks[0], map[*ssa.BasicBlock]bool{pred: true}, cut) != nil {
 						okCost = false
 						edges = append(edges, "(entry.Cost used although the advertised next hop is this router: no poison reverse)")
 					}
@@ -113,8 +119,8 @@ func C18(c *core.Ctx) {
 				if fld == "OtherCost" && pred != nil {
 					// only under next-hop-is-self ∧ OtherCost < infinity
 					for _, a := range []*core.Atom{isSelf, otherFinite} {
-						cut, per := core.CutEdges(ru, pos(a))
-						if per[0] == 0 || core.ReachAvoiding(ru, ru.Blocks[0], map[*ssa.BasicBlock]bool{pred: true}, cut) != nil {
+						cut, per := core.CutEdges(cf, pos(a))
+						if per[0] == 0 || core.ReachAvoiding(cf, cf.Blocks[0], map[*ssa.BasicBlock]bool{pred: true}, cut) != nil {
 							okCost = false
 							edges = append(edges, "(OtherCost used without "+a.Name+")")
 						}
@@ -138,7 +144,7 @@ func C18(c *core.Ctx) {
 				}
 				walk(phi, map[*ssa.Phi]bool{})
 			} else {
-				check(cost, nil, nil)
+				check(costV, nil, nil)
 			}
 			hasCost, hasOther := false, false
 			for _, e := range edges {
@@ -164,13 +170,13 @@ func C18(c *core.Ctx) {
 				}
 				return 0, 0
 			}}
-			g := core.Gate(ru, []ssa.Instruction{ci}, neg(unreach))
+			g := core.GateDeep(ru, []ssa.Instruction{ci}, neg(unreach))
 			c.Decide(g.OK && g.PassEdges > 0, "R18.1", "skip-unreachable", c.Pos(ci), "Set unreachable when cost ≥ infinity", "ribUpdate installs destinations whose cost reached infinity (count-to-infinity entries linger and are advertised)")
 			// reset before the loop
 			okReset := false
-			for _, rc := range core.FindCalls(ru, core.CalleeID{Pkg: "dv/table", Recv: "Rib", Name: "DirtyResetNextHop"}) {
+			for _, rc := range core.FindCallsDeep(ru, core.CalleeID{Pkg: "dv/table", Recv: "Rib", Name: "DirtyResetNextHop"}) {
 				_, ra := core.CallArgs(rc.Common())
-				if isFieldLoad(ra[0], ns, "Name") && !core.InLoop(rc.Block()) && core.Precedes(ru, ci, func(in ssa.Instruction) bool { return in == ssa.Instruction(rc) }) {
+				if isFieldLoad(ra[0], ns, "Name") && !core.InLoop(rc.Block()) && core.PrecedesDeep(ru, ci, func(in ssa.Instruction) bool { return in == ssa.Instruction(rc) }) {
 					okReset = true
 				}
 			}
@@ -181,7 +187,7 @@ func C18(c *core.Ctx) {
 	// ---- R18.2
 	nMut := 0
 	for _, fn := range p.FuncsIn(core.ModPath + "/dv/dv") {
-		for _, ci := range core.FindCalls(fn, core.CalleeID{Pkg: "dv/table", Recv: "Rib", Name: "Set"}, core.CalleeID{Pkg: "dv/table", Recv: "Rib", Name: "RemoveNextHop"}, core.CalleeID{Pkg: "dv/table", Recv: "Rib", Name: "DirtyResetNextHop"}) {
+		for _, ci := range core.FindCallsDeep(fn, core.CalleeID{Pkg: "dv/table", Recv: "Rib", Name: "Set"}, core.CalleeID{Pkg: "dv/table", Recv: "Rib", Name: "RemoveNextHop"}, core.CalleeID{Pkg: "dv/table", Recv: "Rib", Name: "DirtyResetNextHop"}) {
 			fname := core.FuncName(fn)
 			if fn.Name() == "NewRouter" || strings.HasPrefix(fn.Name(), "Start") || strings.HasPrefix(fn.Name(), "New") {
 				c.Ok("R18.2", "prune-after-mutation:"+fname+":"+calleeName(ci), c.Pos(ci), "frozen exception: start-up registration of this router's own entry at cost 0")
@@ -189,7 +195,7 @@ func C18(c *core.Ctx) {
 			}
 			nMut++
 			c.Funcs[fname] = true
-			fr := core.MustFollow(fn, core.After(ci), func(in ssa.Instruction) bool {
+			fr := core.MustFollowDeep(fn, core.After(ci), func(in ssa.Instruction) bool {
 				_, ok := core.IsCall(in, core.CalleeID{Pkg: "dv/table", Recv: "Rib", Name: "Prune"})
 				return ok
 			}, nil)
@@ -199,7 +205,7 @@ func C18(c *core.Ctx) {
 	c.Floor("R18.2", "RIB mutation call sites in dv/dv", nMut, 3)
 	if pr := c.Fn("R18.2", "dv/table", "Rib", "Prune"); pr != nil {
 		var dels []ssa.Instruction
-		core.Instrs(pr, func(in ssa.Instruction) {
+		core.InstrsDeep(pr, func(in ssa.Instruction) {
 			if isMapDelete(in, "entries") {
 				dels = append(dels, in)
 			}
@@ -220,22 +226,22 @@ func C18(c *core.Ctx) {
 			}
 			return 0, 0
 		}}
-		g := core.Gate(pr, dels, pos(dead))
+		g := core.GateDeep(pr, dels, pos(dead))
 		okDel := len(dels) > 0 && g.OK && g.PassEdges > 0
 		for _, f := range core.EdgeFacts(pr, dead) {
-			if f.Holds && !core.MustFollow(pr, core.Point{Block: f.E.To, Idx: 0}, func(in ssa.Instruction) bool { return isMapDelete(in, "entries") }, func(in ssa.Instruction) bool { return in.Block() == loopHeader(f.E.From) }).OK {
+			if f.Holds && !core.MustFollowDeep(pr, core.Point{Block: f.E.To, Idx: 0}, func(in ssa.Instruction) bool { return isMapDelete(in, "entries") }, func(in ssa.Instruction) bool { return in.Block() == loopHeader(f.E.From) }).OK {
 				okDel = false
 			}
 		}
 		c.Decide(okDel, "R18.2", "prune-deletes-exactly-infinite", p.Pos(pr.Pos()), "an entry is deleted exactly on the edge asserting lowest1 == infinity", "Prune does not delete exactly the destinations whose best cost is infinity")
 		// dirty entries are refreshed before the test
-		ref := core.FindCalls(pr, core.CalleeID{Pkg: "dv/table", Recv: "RibEntry", Name: "refresh"})
+		ref := core.FindCallsDeep(pr, core.CalleeID{Pkg: "dv/table", Recv: "RibEntry", Name: "refresh"})
 		c.Decide(len(ref) > 0, "R18.2", "prune-refreshes-dirty", p.Pos(pr.Pos()), "dirty entries are refreshed in Prune", "Prune does not recompute dirty entries before testing their best cost")
 	}
 	if ad := c.Fn("R18.2", "dv/table", "Rib", "Advert"); ad != nil {
 		// cost fields come from lowest1 / lowest2 of the same entry
 		ok := 0
-		core.Instrs(ad, func(in ssa.Instruction) {
+		core.InstrsDeep(ad, func(in ssa.Instruction) {
 			if _, v, okS := storeToField(in, "AdvEntry", "Cost"); okS {
 				if _, okF := core.FieldOf(v, "lowest1"); okF {
 					ok++
@@ -252,11 +258,11 @@ func C18(c *core.Ctx) {
 
 	// ---- R18.3
 	if cd := c.Fn("R18.3", "dv/dv", "Router", "checkDeadNeighbors"); cd != nil {
-		rm := core.FindCalls(cd, core.CalleeID{Pkg: "dv/table", Recv: "NeighborTable", Name: "Remove"})
+		rm := core.FindCallsDeep(cd, core.CalleeID{Pkg: "dv/table", Recv: "NeighborTable", Name: "Remove"})
 		c.Floor("R18.3", "neighbour removals", len(rm), 1)
 		for _, ci := range rm {
 			_, a := core.CallArgs(ci.Common())
-			fr := core.MustFollow(cd, core.After(ci), func(in ssa.Instruction) bool {
+			fr := core.MustFollowDeep(cd, core.After(ci), func(in ssa.Instruction) bool {
 				cc, ok := core.IsCall(in, core.CalleeID{Pkg: "dv/table", Recv: "Rib", Name: "RemoveNextHop"})
 				if !ok {
 					return false
@@ -266,7 +272,7 @@ func C18(c *core.Ctx) {
 			}, nil)
 			c.Decide(fr.OK, "R18.3", "dead-neighbour-leaves-rib", c.Pos(ci), "removing a neighbour is followed by RemoveNextHop for the same name", "a dead neighbour is removed from the neighbour table but its routes stay in the RIB (destinations behind it are never withdrawn)")
 			dead := atomCallTrue("neighbour-is-dead", callIs(core.CalleeID{Pkg: "dv/table", Recv: "NeighborState", Name: "IsDead"}))
-			g := core.Gate(cd, []ssa.Instruction{ci}, pos(dead))
+			g := core.GateDeep(cd, []ssa.Instruction{ci}, pos(dead))
 			c.Decide(g.OK && g.PassEdges > 0, "R18.3", "only-dead-neighbours-removed", c.Pos(ci), "neighbours are removed only on the IsDead() edge", "a live neighbour can be removed")
 		}
 	}
@@ -275,7 +281,7 @@ func C18(c *core.Ctx) {
 	if rf := c.Fn("R18.4", "dv/table", "RibEntry", "refresh"); rf != nil {
 		// comparisons: cost < lowestK, cost == lowestK, hop < nextHopK — on loop-carried phis
 		count := map[string]int{}
-		core.Instrs(rf, func(in ssa.Instruction) {
+		core.InstrsDeep(rf, func(in ssa.Instruction) {
 			b, ok := in.(*ssa.BinOp)
 			if !ok {
 				return
@@ -294,7 +300,7 @@ func C18(c *core.Ctx) {
 		c.Decide(count["<"] >= 4 && count["=="] >= 2, "R18.4", "deterministic-tie-break", p.Pos(rf.Pos()), fmt.Sprintf("selection uses cost < best, and on cost == best the hop id (comparisons %v)", count), fmt.Sprintf("RibEntry.refresh does not break cost ties by hop id for both best and second best (comparisons found %v): with equal costs the chosen next hop depends on map iteration order", count))
 		// demotion: the phi of lowest2 has an incoming value that is the lowest1 phi
 		demote := false
-		core.Instrs(rf, func(in ssa.Instruction) {
+		core.InstrsDeep(rf, func(in ssa.Instruction) {
 			ph, ok := in.(*ssa.Phi)
 			if !ok || ph.Comment != "lowest2" {
 				return
@@ -310,6 +316,48 @@ func C18(c *core.Ctx) {
 	// ---- R18.5 every change of an entry's cost column is followed by refresh() of that
 	// entry (or marks it dirty for Prune) before the next entry is visited or the
 	// function returns: best / second best are never left stale
+	// the "needs refresh" mark: a bool field of RibEntry whose true value makes some
+	// function call refresh() on that entry (Prune does) — found by role, not by name
+	dirtyField := map[int]bool{}
+	for _, fn := range p.FuncsIn(core.ModPath + "/dv/table") {
+		for _, b := range fn.Blocks {
+			iff, ok := b.Instrs[len(b.Instrs)-1].(*ssa.If)
+			if !ok {
+				continue
+			}
+			u, ok := core.Strip(iff.Cond).(*ssa.UnOp)
+			if !ok || u.Op != token.MUL {
+				continue
+			}
+			fa, ok := u.X.(*ssa.FieldAddr)
+			if !ok || !isNamed(core.Deref(fa.X.Type()), "RibEntry") {
+				continue
+			}
+			fr := core.MustFollow(fn, core.Point{Block: b.Succs[0], Idx: 0}, func(x ssa.Instruction) bool {
+				ci, ok := x.(ssa.CallInstruction)
+				if !ok {
+					return false
+				}
+				id, ok := core.Callee(ci.Common())
+				if !ok || id.Name != "refresh" {
+					return false
+				}
+				r, _ := core.CallArgs(ci.Common())
+				return core.Same(r, fa.X)
+			}, func(x ssa.Instruction) bool { return x.Block() == b })
+			// the true branch must reach refresh before looping back / returning
+			if fr.OK && core.ReachInstrFrom(core.Point{Block: b.Succs[0], Idx: 0}, b.Instrs[0], nil, func(x ssa.Instruction) bool {
+				ci, ok := x.(ssa.CallInstruction)
+				if !ok {
+					return false
+				}
+				id, ok := core.Callee(ci.Common())
+				return ok && id.Name == "refresh"
+			}) == nil {
+				dirtyField[fa.Field] = true
+			}
+		}
+	}
 	nW := 0
 	for _, fn := range p.FuncsIn(core.ModPath + "/dv/table") {
 		if strings.HasSuffix(p.File(fn.Pos()), "_test.go") {
@@ -338,20 +386,22 @@ func C18(c *core.Ctx) {
 						return core.Same(r, ent)
 					}
 				}
-				if fa, v, ok := storeToField(x, "RibEntry", "dirty"); ok && core.Same(fa.X, ent) {
-					b, isC := core.ConstBool(v)
-					return isC && b
+				if st, ok := x.(*ssa.Store); ok {
+					if fa, ok := st.Addr.(*ssa.FieldAddr); ok && dirtyField[fa.Field] && isNamed(core.Deref(fa.X.Type()), "RibEntry") && core.Same(fa.X, ent) {
+						b, isC := core.ConstBool(st.Val)
+						return isC && b
+					}
 				}
 				return false
 			}
 			var ok2 bool
 			if h := loopHeader(in.Block()); h == nil {
-				ok2 = core.MustFollow(fn, core.After(in), isB, nil).OK
+				ok2 = core.MustFollowDeep(core.RootOf(fn), core.After(in), isB, nil).OK
 			} else {
 				// per iteration: neither the next iteration nor an exit of the loop is
 				// reached from the write without passing the refresh
 				ok2 = core.ReachInstrFrom(core.After(in), h.Instrs[0], nil, isB) == nil &&
-					core.MustFollow(fn, core.After(in), isB, func(x ssa.Instruction) bool { return x == h.Instrs[0] }).OK
+					core.MustFollowDeep(core.RootOf(fn), core.After(in), isB, func(x ssa.Instruction) bool { return x == h.Instrs[0] }).OK
 			}
 			c.Decide(ok2, "R18.5", "cost-write-refreshed:"+fname, c.Pos(in), "the entry is refreshed (or marked dirty) on every path after its cost column changes", fname+" changes an entry's cost column and can move on without refreshing that entry: its best / second-best cost and next hop stay stale, so unreachable destinations keep a finite cost in the RIB and in advertisements")
 		})
